@@ -667,6 +667,16 @@ class Program:
             return self._virtual[name]
         return b
 
+    def inlined(self, name, keep=()):
+        """the body `name` with single-use private helpers spliced in (see inline_single_use_helpers); None if the body does not exist"""
+        b = self.body(name)
+        if b is None:
+            return None
+        key = (name, tuple(sorted(keep)))
+        if key not in self._virtual:
+            self._virtual[key] = inline_single_use_helpers(self, b, keep)
+        return self._virtual[key]
+
     def find(self, pattern):
         """bodies whose normalised path matches the regex (search)"""
         rx = re.compile(pattern)
@@ -1016,3 +1026,75 @@ def loop_as_closure(prog, body):
     v.iteration_start = some_tgt
     v.virtual_of = body.npath
     return v
+
+
+def _renumber(x, loff, boff, ret_local):
+    """deep copy of a MIR fragment (statement / terminator / operand / place) with locals and block ids shifted"""
+    if isinstance(x, list):
+        return [_renumber(y, loff, boff, ret_local) for y in x]
+    if not isinstance(x, dict):
+        return x
+    out = {}
+    for k, v in x.items():
+        if k == "l" and isinstance(v, int):
+            out[k] = ret_local if v == 0 else v + loff
+        elif k == "local" and isinstance(v, int):
+            out[k] = ret_local if v == 0 else v + loff
+        elif k in ("target", "otherwise", "cleanup") and isinstance(v, int):
+            out[k] = v + boff
+        elif k == "targets" and isinstance(v, list):
+            out[k] = [[a, b + boff] for a, b in v]
+        else:
+            out[k] = _renumber(v, loff, boff, ret_local)
+    return out
+
+
+def inline_single_use_helpers(prog, body, keep=(), max_rounds=3):
+    """Body in which every direct call of a workspace function that (a) has this call as its ONLY call site in the workspace, (b) is not
+    named in `keep` and (c) is not recursive is replaced by the callee's blocks (parameters bound by assignments, the return slot
+    copied into the call's destination).  An extracted private helper thus reads like the code before the extraction, and dominance,
+    origin and order rules apply across it.  Returns `body` itself when nothing qualifies."""
+    import copy
+    keep = set(keep)
+    j = None
+    cur = body
+    for _ in range(max_rounds):
+        cand = None
+        for c in cur.calls():
+            tgt = c.target
+            cb = prog.bodies.get(tgt) if tgt else None
+            if cb is None or cb.crate != cur.crate:
+                continue
+            if tgt in keep or tgt.split("::")[-1] in keep or tgt == cur.npath or cb.kind == "Closure":
+                continue
+            if len(prog.who_calls(tgt)) != 1 or c.t.get("target") is None or c.t["dst"]["p"]:
+                continue
+            if any((x.target == tgt) for x in cb.calls()):
+                continue
+            cand = (c, cb)
+            break
+        if cand is None:
+            break
+        c, cb = cand
+        j = copy.deepcopy(cur.j)
+        loff, boff = len(j["locals"]), len(j["blocks"])
+        ret_local = loff            # callee's _0
+        j["locals"] = j["locals"] + copy.deepcopy(cb.j["locals"])
+        new_blocks = []
+        for blk in cb.j["blocks"]:
+            nb = _renumber(blk, loff, boff, ret_local)
+            if nb["term"]["k"] == "return":
+                nb["stmts"] = nb["stmts"] + [{"k": "assign", "dst": copy.deepcopy(c.t["dst"]), "rv": {"k": "use", "op": {"k": "move", "place": {"l": ret_local, "p": []}}}, "line": c.t.get("line", 0)}]
+                nb["term"] = {"k": "goto", "target": c.t["target"]}
+            new_blocks.append(nb)
+        # binding block
+        bind = {"stmts": [], "term": {"k": "goto", "target": boff}}
+        for i, a in enumerate(c.t["args"]):
+            bind["stmts"].append({"k": "assign", "dst": {"l": loff + 1 + i, "p": []}, "rv": {"k": "use", "op": copy.deepcopy(a)}, "line": c.t.get("line", 0)})
+        j["blocks"] = j["blocks"] + new_blocks + [bind]
+        j["blocks"][c.bb]["term"] = {"k": "goto", "target": boff + len(new_blocks)}
+        nb = Body(j, cur.crate)
+        nb.alias, nb.origin_alias, nb.iteration_start = dict(cur.alias), dict(cur.origin_alias), cur.iteration_start
+        nb.inlined = getattr(cur, "inlined", []) + [cb.npath]
+        cur = nb
+    return cur
